@@ -7,3 +7,5 @@ import Crd.Props.C08
 #print axioms Crd.Props.C08.notes_paired_per_track
 #print axioms Crd.Props.C08.header_bytes
 #print axioms Crd.Props.C08.ticks_per_quarter
+#print axioms Crd.Props.C08.delta_times_fit
+#print axioms Crd.Props.C08.too_long_refused
